@@ -310,3 +310,10 @@ func VerifGroupDemux(g *AbacoGroup, pkts []*packets.Packet, frames int) [][]RawT
 	g.demuxData(datacopies, frames)
 	return datacopies
 }
+
+// VerifRingStart / VerifRingStop run the real AbacoRing.start (open the ring, learn its packet size, discard
+// what is stale) and AbacoRing.stop, so that ReadAllPackets can be driven on a ring a test writer fills.
+func VerifRingStart(dev *AbacoRing) error { return dev.start() }
+
+// VerifRingStop closes the ring.
+func VerifRingStop(dev *AbacoRing) error { return dev.stop() }
